@@ -330,7 +330,10 @@ public:
     ~scheduler() {
         if (_glob_state.has_value()) {
             _glob_state->_stp.request_stop();
-            _glob_state->_fut.wait();
+            //only wait for the worker, do not pick its result: the worker can end
+            //with an exception (when its thread pool is stopped) and that must not
+            //be thrown out of the destructor
+            _glob_state->_fut.sync();
         }
     }
 
